@@ -1849,3 +1849,71 @@ Proof.
   destruct (spec_send_c p cn bd (skipn (length l1 + length l2) sc) kt) as [[r3 t3] l3]. injection E3 as R3 T3 L3.
   congruence.
 Qed.
+
+(* ------------------------------------------------------------------ *)
+(* Soundness of the acceptor up to its allowances: a pause it accepts is the clamp of a value
+   that lies within the rounding allowances of the model's exact range *)
+
+Lemma clamp_max_min minw maxw x : minw <= maxw -> clamp minw maxw x = Z.max minw (Z.min maxw x).
+Proof.
+  intro H. unfold clamp. destruct (x <? minw) eqn:A.
+  - destruct (minw >? maxw) eqn:B; lia.
+  - destruct (x >? maxw) eqn:B; lia.
+Qed.
+
+Lemma clamp_ivt minw maxw lo hi d :
+  minw <= maxw -> lo <= hi -> clamp minw maxw lo <= d <= clamp minw maxw hi ->
+  exists x, lo <= x <= hi /\ d = clamp minw maxw x.
+Proof.
+  intros Hm Hl Hd. exists (Z.max lo (Z.min hi d)). split; [lia|].
+  rewrite !clamp_max_min in * by exact Hm. lia.
+Qed.
+
+Lemma exp_class_range guarded e attempt o lo hi :
+  exp_class guarded e attempt o = ECRange lo hi ->
+  lo <= hi /\
+  ((generated_backoff_retry_after_ok (retry_after_secs o) = true /\
+    lo = wrap64 (retry_after_secs o * generated_backoff_retry_after_unit) /\ hi = lo) \/
+   (generated_backoff_retry_after_ok (retry_after_secs o) = false /\
+    qtrunc (exp_a e attempt) - tol_a e attempt <= lo /\
+    hi <= qtrunc (exp_a e attempt) + Z.max 0 (qtrunc (exp_n e attempt)) + tol_a e attempt + tol_n e attempt)).
+Proof.
+  unfold exp_class. cbv zeta.
+  pose proof (tol_a_pos e attempt) as Hta. pose proof (tol_n_pos e attempt) as Htn.
+  destruct (generated_backoff_retry_after_ok (retry_after_secs o)) eqn:Hra.
+  - intro E. injection E as <- <-. split; [lia|]. left. auto.
+  - destruct (qnear (exp_n e attempt) 1); [discriminate|].
+    destruct (two63 - tol_n e attempt <=? qtrunc (exp_n e attempt)); [discriminate|].
+    destruct (qtrunc (exp_n e attempt) <=? 0) eqn:En.
+    + destruct guarded; [|discriminate].
+      destruct ((- two63 + tol_a e attempt <? qtrunc (exp_a e attempt)) && (qtrunc (exp_a e attempt) + tol_a e attempt <? two63));
+        [|discriminate].
+      intro E. injection E as <- <-. apply Z.leb_le in En. split; [lia|]. right. repeat split; auto; lia.
+    + destruct ((- two63 + tol_a e attempt <? qtrunc (exp_a e attempt)) &&
+                (qtrunc (exp_a e attempt) + qtrunc (exp_n e attempt) + tol_a e attempt + tol_n e attempt <? two63));
+        [|discriminate].
+      intro E. injection E as <- <-. apply Z.leb_gt in En. split; [lia|]. right. repeat split; auto; lia.
+Qed.
+
+Lemma accept_decision_sound guarded maxretry minw maxw e attempt o d :
+  minw <= maxw ->
+  accept_decision guarded maxretry minw maxw e attempt o (ODWait d) = VYes ->
+  attempt < maxretry /\ default_predicate o = PRetry /\
+  exists x, d = clamp minw maxw x /\
+    ((generated_backoff_retry_after_ok (retry_after_secs o) = true /\
+      x = wrap64 (retry_after_secs o * generated_backoff_retry_after_unit)) \/
+     (generated_backoff_retry_after_ok (retry_after_secs o) = false /\
+      qtrunc (exp_a e attempt) - tol_a e attempt <= x <=
+      qtrunc (exp_a e attempt) + Z.max 0 (qtrunc (exp_n e attempt)) + tol_a e attempt + tol_n e attempt)).
+Proof.
+  intro Hm. unfold accept_decision.
+  destruct (attempt >=? maxretry) eqn:Ea; [discriminate|].
+  destruct (default_predicate o); try discriminate.
+  destruct (exp_class guarded e attempt o) as [|lo hi|] eqn:Ec; try discriminate.
+  destruct ((clamp minw maxw lo <=? d) && (d <=? clamp minw maxw hi)) eqn:Ed; [|discriminate].
+  intros _. apply andb_true_iff in Ed. destruct Ed as [E1 E2]. apply Z.leb_le in E1, E2.
+  destruct (exp_class_range guarded e attempt o lo hi Ec) as (Hl & Hr).
+  destruct (clamp_ivt minw maxw lo hi d Hm Hl (conj E1 E2)) as (x & Hx & Hd).
+  split; [lia|]. split; [reflexivity|]. exists x. split; [exact Hd|].
+  destruct Hr as [(R1 & R2 & R3)|(R1 & R2 & R3)]; [left|right]; split; auto; lia.
+Qed.
